@@ -16,10 +16,11 @@ from __future__ import annotations
 import ast
 
 from ..align import IN, Align, Arr, Opaque, Scalar, fmt_space, same_space
+from ..cfg import CFG
 from ..core import AnalysisError
 from ..defuse import DefUse, Terms, show, specialise, walk_term
 from ..defuse import key as tkey
-from ..tutil import TTUnknown, np_call, strip_conv, tt_eval
+from ..tutil import TTUnknown, lin, np_call, strip_conv, tt_eval
 
 EXPLANATION = (
     "Static analysis of mokapot.model.Model.fit, _find_hyperparameters and "
@@ -361,12 +362,61 @@ def _check_prediction(ctx, df, fit):
     fpsms = [p for p in fit.params if p != "self"][0]
     ok_names = show(names_t) == f"{fpsms}.features.columns.tolist()"
     scaled = None
+    FEATS = ("attr", ("param", fpsms), "features")
+    SCALER = ("attr", ("param", "self"), "scaler")
+    fits = []
     for n in ast.walk(fit.node):
         if isinstance(n, ast.Call) and isinstance(n.func, ast.Attribute) \
-                and n.func.attr == "fit_transform":
-            scaled = T2.of(n.args[0])
-    ok_scaled = scaled is not None and tkey(strip_conv(scaled)) == \
-        f"{fpsms}.features"
+                and n.func.attr in ("fit_transform", "fit", "partial_fit",
+                                    "transform") and n.args and \
+                T2.of(n.func.value) == SCALER:
+            fits.append((n, n.func.attr, T2.of(n.args[0])))
+            if n.func.attr in ("fit_transform", "transform"):
+                scaled = T2.of(n.args[0])
+    ok_scaled = scaled is not None and strip_conv(scaled) == FEATS
+    # the scaler must learn from ALL rows: statistics of a row subset depend
+    # on which rows come first (the property demands row-order independence)
+    partial = [(n, k, t) for n, k, t in fits if k in (
+        "fit", "partial_fit", "fit_transform")
+        and strip_conv(t) != FEATS]
+    cfg2 = CFG(fit.node)
+    for n, k, t in partial:
+        # chunk-wise fitting: range(lo, STOP, step) with rows [i : i + step]
+        # reaches the last row iff STOP is the number of rows
+        verdict = None
+        st = strip_conv(t)
+        lp = cfg2.enclosing(n, (ast.For,))
+        if st[0] == "sub" and lp is not None:
+            it = T2.of(lp.iter)
+            if it[0] == "call" and it[1] == "builtins.range" and \
+                    len(it[2]) == 3:
+                nrows = [("sub", ("attr", x, "shape"), ("const", 0))
+                         for x in (strip_conv(st[1]), st[1])] + [
+                    ("call", "builtins.len", (st[1],), ())]
+                d = [lin(it[2][1]) + lin(nr).scale(-1) for nr in nrows]
+                if any(x.const == 0 and not x.atoms for x in d):
+                    verdict = True
+                elif any(any(c < 0 for c in x.atoms.values())
+                         or (not x.atoms and x.const < 0) for x in d):
+                    verdict = False
+        elif st[0] == "sub" and lp is None and k == "fit":
+            verdict = True      # the first chunk of a chunk-wise fit
+        if verdict is None:
+            raise AnalysisError(
+                f"{FIT}: scaler.{k}({show(t, 80)}) learns from a part of "
+                "the rows and the coverage of the chunk loop is not "
+                "recognised; rule C12a needs re-reading")
+        ctx.check(verdict, "C12a-scaler-sees-all-rows", fit,
+                  "chunk-wise scaler fitting reaches the last row",
+                  f"scaler.{k}({show(t, 80)}) runs over "
+                  f"{ast.unparse(lp.iter) if lp is not None else '?'}: the "
+                  "loop stops before the end, so the last rows never reach "
+                  "the scaler and the normalisation depends on which PSMs "
+                  "come last", node=n)
+    if not partial:
+        ctx.ok("C12a-scaler-sees-all-rows", fit,
+               f"{len(fits)} scaler call(s), all on the whole feature "
+               "matrix")
     ctx.check(ok_names and ok_scaled, "C12c-stored-names-are-training-order",
               fit, "self.features records the column order of the matrix "
               "that is scaled and trained on",
